@@ -1,54 +1,40 @@
-import SeaQ.Lemmas.RenderBalance
+import SeaQ.Lemmas.RenderPlain
 import SeaQ.Lemmas.Scan
 import SeaQ.Model.Ddl
 /-!
-Balanced parentheses for everything the schema-statement renderer writes (`Model/Ddl.lean`).
+GENERATED from `DdlBalance.lean` by `bin/gen-plain` — do not edit.
+Renderer text is basic in everything the schema-statement renderer writes.
 -/
-namespace SeaQ.Balance
-open SeaQ.Escape SeaQ.Render SeaQ.Stmt SeaQ.Ddl
+namespace SeaQ.Plain
+open SeaQ.Escape SeaQ.Render SeaQ.Stmt SeaQ.Ddl SeaQ.SafeN
 
-theorem scanC_noparen : ∀ (t : List Char) (n : Nat), (∀ c ∈ t, c ≠ '(' ∧ c ≠ ')') → scanC n t = some n := by
-  intro t
-  induction t with
-  | nil => intro n _; rfl
-  | cons c r ih =>
-    intro n h
-    have hc := h c (List.mem_cons_self)
-    simp only [scanC, hc.1, hc.2, ↓reduceIte]
-    exact ih n (fun x hx => h x (List.mem_cons_of_mem _ hx))
+variable {d : Backend}
 
-theorem scanC_natText (k n : Nat) : scanC n (natText k) = some n := by
-  apply scanC_noparen
-  intro c hc
-  have hd := SeaQ.Scan.natText_all_digits k c hc
-  constructor <;> (intro h; rw [h] at hd; revert hd; decide)
-
-theorem B_num (k : Nat) : B [num k] := by
-  right; intro n; simp [scan, scanP, num, scanC_natText]
+theorem B_num (k : Nat) : B d [num k] := B_raw _
 
 open SeaQ.Gen.ColTypes in
-def tplScan : Nat → List Seg → Option Nat
-  | n, [] => some n
-  | n, .lit s :: r => (scanC n s.toList).bind (fun m => tplScan m r)
-  | n, .par _ :: r => tplScan n r
+/-- every literal part of every template is basic (or the Postgres array suffix) -/
+def tplPlain (d : Backend) (t : List Seg) : Bool := t.all (fun | .lit s => tok s || (d == .postgres && s == "[]") | .par _ => true)
 
 open SeaQ.Gen.ColTypes in
-theorem scan_segPieces (ρ : String → Nat) : ∀ (t : List Seg) (n : Nat), scan n (segPieces ρ t) = tplScan n t := by
+theorem b_segPieces (ρ : String → Nat) : ∀ (t : List Seg), tplPlain d t = true → (segPieces ρ t).all (okP d) = true := by
   intro t
   induction t with
-  | nil => intro n; rfl
+  | nil => intro _; rfl
   | cons x r ih =>
-    intro n
+    intro h
+    simp only [tplPlain, List.all_cons, Bool.and_eq_true] at h
+    have ihr := ih (by simpa [tplPlain] using h.2)
     cases x with
-    | lit s => simp only [segPieces, scan, scanP, S, tplScan]; cases scanC n s.toList <;> simp [ih]
-    | par p => simp [segPieces, scan, scanP, num, tplScan, scanC_natText, ih]
+    | lit s => simp only [segPieces, List.all_cons, okP, S, Bool.and_eq_true]; exact ⟨h.1, ihr⟩
+    | par p => simp only [segPieces, List.all_cons, okP, num, Bool.true_and]; exact ihr
 
 open SeaQ.Gen.ColTypes in
-def tableBal (table : List Arm) : Bool := table.all (fun a => a.templates.all (fun t => tplScan 0 t == some 0))
+def tableBal (d : Backend) (table : List Arm) : Bool := table.all (fun a => a.computed || a.templates.all (tplPlain d))
 
 open SeaQ.Gen.ColTypes in
-theorem b_fromTable (table : List Arm) (ht : tableBal table = true) (v : String) (i : Nat) (ρ : String → Nat) :
-    B (fromTable table v i ρ) := by
+theorem b_fromTable (table : List Arm) (ht : tableBal d table = true) (v : String) (i : Nat) (ρ : String → Nat) :
+    B d (fromTable table v i ρ) := by
   unfold fromTable
   cases hf : findArm table v with
   | none => exact B_bad
@@ -64,30 +50,32 @@ theorem b_fromTable (table : List Arm) (ht : tableBal table = true) (v : String)
         simp only
         have ha : a ∈ table := List.mem_of_find?_eq_some hf
         have htm : t ∈ a.templates := List.mem_of_getElem? hg
-        simp only [tableBal, List.all_eq_true, beq_iff_eq] at ht
-        exact Bk_of _ 0 (by rw [scan_segPieces]; exact ht a ha t htm)
+        simp only [tableBal, List.all_eq_true, Bool.or_eq_true] at ht
+        cases ht a ha with
+        | inl h => rw [hcmp] at h; cases h
+        | inr h => exact Or.inr (b_segPieces ρ t (h t htm))
 
-theorem mysql_tableBal : tableBal SeaQ.Gen.ColTypes.mysql = true := by decide
-theorem postgres_tableBal : tableBal SeaQ.Gen.ColTypes.postgres = true := by decide
-theorem sqlite_tableBal : tableBal SeaQ.Gen.ColTypes.sqlite = true := by decide
-theorem serial_tableBal : tableBal SeaQ.Gen.ColTypes.postgresSerial = true := by decide
+theorem mysql_tableBal : tableBal d SeaQ.Gen.ColTypes.mysql = true := by cases d <;> decide
+theorem postgres_tableBal : tableBal d SeaQ.Gen.ColTypes.postgres = true := by cases d <;> decide
+theorem sqlite_tableBal : tableBal d SeaQ.Gen.ColTypes.sqlite = true := by cases d <;> decide
+theorem serial_tableBal : tableBal d SeaQ.Gen.ColTypes.postgresSerial = true := by cases d <;> decide
 
-theorem e_rTable (m : Nat) (n : TName) : B (rTable m n) := by
+theorem e_rTable (m : Nat) (n : TName) : B d (rTable m n) := by
   unfold rTable; exact B_ite B_bad (b_rParts _ true)
-theorem e_rOptTable (m : Nat) (o : Option TName) : B (Ddl.rOptTable m o) := by
+theorem e_rOptTable (m : Nat) (o : Option TName) : B d (Ddl.rOptTable m o) := by
   cases o with
   | none => exact B_nil
   | some n => exact e_rTable m n
 
-theorem B_strLit (s : String) : B [rStrLit s] := by bal
+theorem B_strLit (s : String) : B d [rStrLit s] := by bal
 
-theorem e_rEnumVariants : ∀ (l : List String) (first : Bool), B (rEnumVariants first l) := by
+theorem e_rEnumVariants : ∀ (l : List String) (first : Bool), B d (rEnumVariants first l) := by
   intro l; induction l with
   | nil => intro _; exact B_nil
   | cons v r ih => intro first; simp only [rEnumVariants]; exact B.app (B.app (b_sep first ", " (by decide)) (B_strLit v)) (ih false)
 
-theorem e_rTypeMysql (t : ColType) : B (rTypeMysql t) := by
-  have gen : ∀ t, B (fromTable SeaQ.Gen.ColTypes.mysql (variantName t) (idxMysql t).1 (idxMysql t).2 ++
+theorem e_rTypeMysql (t : ColType) : B d (rTypeMysql t) := by
+  have gen : ∀ t, B d (fromTable SeaQ.Gen.ColTypes.mysql (variantName t) (idxMysql t).1 (idxMysql t).2 ++
       (if SeaQ.Gen.ColTypes.mysqlUnsigned.contains (variantName t) then [S " ", S "UNSIGNED"] else [])) := fun t =>
     B.app (b_fromTable _ mysql_tableBal _ _ _) (B_ite (by bal) B_nil)
   cases t
@@ -97,12 +85,12 @@ theorem e_rTypeMysql (t : ColType) : B (rTypeMysql t) := by
     exact Bk.close (j := 0) (Bk.appB (Bk_S "ENUM(" 1 (by decide)) (B_ite (B_strLit _) (e_rEnumVariants vs true))) (Cl_S ")" (by decide))
   all_goals exact gen _
 
-theorem e_rTypePg : ∀ (t : ColType), B (rTypePg t) := by
-  have gen : ∀ t, B (fromTable SeaQ.Gen.ColTypes.postgres (variantName t) (idxPg t).1 (idxPg t).2) := fun t =>
+theorem e_rTypePg : ∀ (t : ColType), B .postgres (rTypePg t) := by
+  have gen : ∀ t, B .postgres (fromTable SeaQ.Gen.ColTypes.postgres (variantName t) (idxPg t).1 (idxPg t).2) := fun t =>
     b_fromTable _ postgres_tableBal _ _ _
   intro t
   induction t with
-  | array e ih => simp only [rTypePg]; exact B.app ih (B_S "[]" (by decide))
+  | array e ih => simp only [rTypePg]; exact B.app ih (by bal)
   | interval f p =>
     simp only [rTypePg]
     refine B.app (B.app (B_S _ (by decide)) ?_) ?_
@@ -118,8 +106,8 @@ theorem e_rTypePg : ∀ (t : ColType), B (rTypePg t) := by
   | «enum» n vs => exact B_raw _
   | _ => exact gen _
 
-theorem e_rTypeSqlite (a : Bool) (t : ColType) : B (rTypeSqlite a t) := by
-  have gen : ∀ t, B (fromTable SeaQ.Gen.ColTypes.sqlite (variantName t) (idxSqlite a t).1 (idxSqlite a t).2) := fun t =>
+theorem e_rTypeSqlite (a : Bool) (t : ColType) : B d (rTypeSqlite a t) := by
+  have gen : ∀ t, B d (fromTable SeaQ.Gen.ColTypes.sqlite (variantName t) (idxSqlite a t).1 (idxSqlite a t).2) := fun t =>
     b_fromTable _ sqlite_tableBal _ _ _
   cases t
   case custom s => exact B_raw _
@@ -129,17 +117,17 @@ theorem e_rTypeSqlite (a : Bool) (t : ColType) : B (rTypeSqlite a t) := by
     | some q => obtain ⟨x, y⟩ := q; simp only [rTypeSqlite]; exact B_ite B_bad (b_fromTable _ sqlite_tableBal _ _ _)
   all_goals (simp only [rTypeSqlite]; exact gen _)
 
-theorem e_rType (d : Backend) (specs : List Spec) (t : ColType) : B (rType d specs t) := by
+theorem e_rType (d : Backend) (specs : List Spec) (t : ColType) : B d (rType d specs t) := by
   cases d <;> simp only [rType]
   · exact e_rTypeMysql t
   · exact B_ite (b_fromTable _ serial_tableBal _ _ _) (e_rTypePg t)
   · exact e_rTypeSqlite _ t
 
-theorem e_rCheck (d : Backend) (e : Ex) : B (rCheck d e) := by
+theorem e_rCheck (d : Backend) (e : Ex) : B d (rCheck d e) := by
   unfold rCheck
   exact Bk.close (j := 0) (Bk.appB (Bk_S "CHECK (" 1 (by decide)) (b_ex d e)) (Cl_S ")" (by decide))
 
-theorem e_rSpec (d : Backend) (s : Spec) : B (rSpec d s) := by
+theorem e_rSpec (d : Backend) (s : Spec) : B d (rSpec d s) := by
   cases s <;> simp only [rSpec]
   case null => bal
   case notNull => bal
@@ -154,105 +142,105 @@ theorem e_rSpec (d : Backend) (s : Spec) : B (rSpec d s) := by
   case comment c => exact B_ite (by bal) B_nil
   case «using» e => exact B_nil
 
-theorem e_rSpecs (d : Backend) : ∀ (l : List Spec), B (rSpecs d l) := by
+theorem e_rSpecs (d : Backend) : ∀ (l : List Spec), B d (rSpecs d l) := by
   intro l; induction l with
   | nil => exact B_nil
   | cons s r ih => simp only [rSpecs]; exact B.app (B_ite B_nil (B.app (B_S " " (by decide)) (e_rSpec d s))) ih
 
-theorem e_rColumnDef (d : Backend) (c : Col) : B (rColumnDef d c) := by
+theorem e_rColumnDef (d : Backend) (c : Col) : B d (rColumnDef d c) := by
   unfold rColumnDef
-  have h1 : B (match c.ty with | some t => [S " "] ++ rType d c.specs t | none => []) := by
+  have h1 : B d (match c.ty with | some t => [S " "] ++ rType d c.specs t | none => []) := by
     cases c.ty with
     | none => exact B_nil
     | some t => exact B.app (B_S " " (by decide)) (e_rType d c.specs t)
   exact B.app (B.app (B.app (B.app (B_id c.name) h1) (e_rSpecs d c.specs)) (B_ite (by bal) B_nil)) (B_ite (by bal) B_nil)
 
-theorem e_rColumnDefs (d : Backend) : ∀ (l : List Col) (first : Bool), B (rColumnDefs d first l) := by
+theorem e_rColumnDefs (d : Backend) : ∀ (l : List Col) (first : Bool), B d (rColumnDefs d first l) := by
   intro l; induction l with
   | nil => intro _; exact B_nil
   | cons c r ih => intro first; simp only [rColumnDefs]; exact B.app (B.app (b_sep first ", " (by decide)) (e_rColumnDef d c)) (ih false)
 
-theorem e_rIdxCols (d : Backend) : ∀ (l : List IdxCol) (first : Bool), B (rIdxCols d first l) := by
+theorem e_rIdxCols (d : Backend) : ∀ (l : List IdxCol) (first : Bool), B d (rIdxCols d first l) := by
   intro l; induction l with
   | nil => intro _; exact B_nil
   | cons c r ih =>
     intro first
     simp only [rIdxCols]
-    have h2 : B (match c.pfx with | some n => if (d == Backend.sqlite) = true then [] else [S " (", num n, S ")"] | none => []) := by
+    have h2 : B d (match c.pfx with | some n => if (d == Backend.sqlite) = true then [] else [S " (", num n, S ")"] | none => []) := by
       cases c.pfx with
       | none => exact B_nil
       | some n => exact B_ite B_nil (Bk.close (j := 0) (Bk.appB (Bk_S " (" 1 (by decide)) (B_num n)) (Cl_S ")" (by decide)))
-    have h3 : B (match c.order with | some false => [S " ASC"] | some true => [S " DESC"] | none => []) := by
+    have h3 : B d (match c.order with | some false => [S " ASC"] | some true => [S " DESC"] | none => []) := by
       cases c.order with
       | none => exact B_nil
       | some b => cases b <;> bal
     exact B.app (B.app (B.app (B.app (b_sep first ", " (by decide)) (B_id c.name)) h2) h3) (ih false)
 
-theorem e_rIndexColumns (d : Backend) (cs : List IdxCol) : B (rIndexColumns d cs) := by
+theorem e_rIndexColumns (d : Backend) (cs : List IdxCol) : B d (rIndexColumns d cs) := by
   unfold rIndexColumns; exact B.paren (e_rIdxCols d cs true)
 
-theorem e_rIndexPrefix (d : Backend) (i : Index) : B (rIndexPrefix d i) := by
+theorem e_rIndexPrefix (d : Backend) (i : Index) : B d (rIndexPrefix d i) := by
   cases d <;> simp only [rIndexPrefix]
   · refine B.app (B.app (B_ite (by bal) B_nil) (B_ite (by bal) B_nil)) ?_
     split <;> bal
   · exact B.app (B_ite (by bal) B_nil) (B_ite (by bal) B_nil)
   · exact B_ite (by bal) (B_ite (by bal) B_nil)
 
-theorem e_rIndexType (d : Backend) (t : Option IndexType) : B (rIndexType d t) := by
+theorem e_rIndexType (d : Backend) (t : Option IndexType) : B d (rIndexType d t) := by
   cases t with
   | none => exact B_nil
   | some t =>
     cases d <;> cases t <;> simp only [rIndexType] <;> first | bal | exact B.app (B_S _ (by decide)) (B_raw _)
 
-theorem e_rInclude (cs : List String) : B (rInclude cs) := by
+theorem e_rInclude (cs : List String) : B d (rInclude cs) := by
   unfold rInclude
   exact Bk.close (j := 0) (Bk.appB (Bk_S "INCLUDE (" 1 (by decide)) (b_rIdents cs true)) (Cl_S ")" (by decide))
 
-theorem e_rFilter (d : Backend) (h : Holder) : B (rFilter d h) := by
+theorem e_rFilter (d : Backend) (h : Holder) : B d (rFilter d h) := by
   unfold rFilter; exact B_ite B_nil (b_holder d _ h (by decide))
 
-theorem e_rTableIndex (d : Backend) (i : Index) : B (rTableIndex d i) := by
-  have hcols : B (rIndexColumns d i.cols) := e_rIndexColumns d i.cols
-  have h2m : B (match i.name with | some n => [Piece.id n, S " "] | none => []) := by cases i.name <;> bal
-  have h2 : B (match i.name with | some n => [S "CONSTRAINT ", Piece.id n, S " "] | none => []) := by cases i.name <;> bal
-  have hnnd : B (if i.nullsNotDistinct = true then [S "NULLS NOT DISTINCT "] else []) := B_ite (by bal) B_nil
-  have hinc : B (if i.include_.isEmpty = true then [] else [S " "] ++ rInclude i.include_) := B_ite B_nil (B.app (B_S " " (by decide)) (e_rInclude _))
-  have hft : B (if isFullText i.indexType = true then [S " "] else []) := B_ite (B_S _ (by decide)) B_nil
-  have hkey : B [S "KEY "] := B_S _ (by decide)
+theorem e_rTableIndex (d : Backend) (i : Index) : B d (rTableIndex d i) := by
+  have hcols : B d (rIndexColumns d i.cols) := e_rIndexColumns d i.cols
+  have h2m : B d (match i.name with | some n => [Piece.id n, S " "] | none => []) := by cases i.name <;> bal
+  have h2 : B d (match i.name with | some n => [S "CONSTRAINT ", Piece.id n, S " "] | none => []) := by cases i.name <;> bal
+  have hnnd : B d (if i.nullsNotDistinct = true then [S "NULLS NOT DISTINCT "] else []) := B_ite (by bal) B_nil
+  have hinc : B d (if i.include_.isEmpty = true then [] else [S " "] ++ rInclude i.include_) := B_ite B_nil (B.app (B_S " " (by decide)) (e_rInclude _))
+  have hft : B d (if isFullText i.indexType = true then [S " "] else []) := B_ite (B_S _ (by decide)) B_nil
+  have hkey : B d [S "KEY "] := B_S _ (by decide)
   cases d <;> simp only [rTableIndex]
   · exact B.app (B.app (B.app (B.app (B.app (e_rIndexPrefix .mysql i) hkey) h2m) (e_rIndexType .mysql i.indexType)) hft) hcols
   · exact B.app (B.app (B.app (B.app h2 (e_rIndexPrefix .postgres i)) hnnd) hcols) hinc
   · exact B.app (B.app (B.app h2 (e_rIndexPrefix .sqlite i)) hcols) (e_rFilter _ _)
 
-theorem e_rTableIndexes (d : Backend) : ∀ (l : List Index) (first : Bool), B (rTableIndexes d first l) := by
+theorem e_rTableIndexes (d : Backend) : ∀ (l : List Index) (first : Bool), B d (rTableIndexes d first l) := by
   intro l; induction l with
   | nil => intro _; exact B_nil
   | cons c r ih => intro first; simp only [rTableIndexes]; exact B.app (B.app (b_sep first ", " (by decide)) (e_rTableIndex d c)) (ih false)
 
-theorem e_rIndexCreate (d : Backend) (i : Index) : B (rIndexCreate d i) := by
-  have hcols : B (rIndexColumns d i.cols) := e_rIndexColumns d i.cols
-  have hname : B (match i.name with | some n => [Piece.id n] | none => []) := by cases i.name <;> bal
-  have htab : B (Ddl.rOptTable (idxParts d) i.table) := e_rOptTable (idxParts d) i.table
-  have hine : B (if i.ifNotExists = true then [S "IF NOT EXISTS "] else []) := B_ite (by bal) B_nil
-  have hinc : B (if i.include_.isEmpty = true then [] else [S " "] ++ rInclude i.include_) :=
+theorem e_rIndexCreate (d : Backend) (i : Index) : B d (rIndexCreate d i) := by
+  have hcols : B d (rIndexColumns d i.cols) := e_rIndexColumns d i.cols
+  have hname : B d (match i.name with | some n => [Piece.id n] | none => []) := by cases i.name <;> bal
+  have htab : B d (Ddl.rOptTable (idxParts d) i.table) := e_rOptTable (idxParts d) i.table
+  have hine : B d (if i.ifNotExists = true then [S "IF NOT EXISTS "] else []) := B_ite (by bal) B_nil
+  have hinc : B d (if i.include_.isEmpty = true then [] else [S " "] ++ rInclude i.include_) :=
     B_ite B_nil (B.app (B_S " " (by decide)) (e_rInclude _))
-  have hnnd : B (if i.nullsNotDistinct = true then [S " NULLS NOT DISTINCT"] else []) := B_ite (by bal) B_nil
-  have hc : B [S "CREATE "] := B_S _ (by decide)
-  have hi : B [S "INDEX "] := B_S _ (by decide)
-  have hon : B [S " ON "] := B_S _ (by decide)
-  have hsp : B [S " "] := B_S _ (by decide)
+  have hnnd : B d (if i.nullsNotDistinct = true then [S " NULLS NOT DISTINCT"] else []) := B_ite (by bal) B_nil
+  have hc : B d [S "CREATE "] := B_S _ (by decide)
+  have hi : B d [S "INDEX "] := B_S _ (by decide)
+  have hon : B d [S " ON "] := B_S _ (by decide)
+  have hsp : B d [S " "] := B_S _ (by decide)
   cases d <;> simp only [rIndexCreate]
   · exact B.app (B.app (B.app (B.app (B.app (B.app (B.app (B.app hc (e_rIndexPrefix .mysql i)) hi) hname) hon) htab) hsp) hcols) (e_rIndexType _ _)
   · exact B.app (B.app (B.app (B.app (B.app (B.app (B.app (B.app (B.app (B.app (B.app (B.app hc (e_rIndexPrefix .postgres i)) hi) hine) hname) hon) htab)
       (e_rIndexType _ _)) hsp) hcols) hinc) hnnd) (e_rFilter _ _)
   · exact B.app (B.app (B.app (B.app (B.app (B.app (B.app (B.app (B.app hc (e_rIndexPrefix .sqlite i)) hi) hine) hname) hon) htab) hsp) hcols) (e_rFilter _ _)
 
-theorem e_rIndexDrop (d : Backend) (name : Option String) (table : Option TName) (ie : Bool) : B (rIndexDrop d name table ie) := by
-  have hname : B (match name with | some n => [Piece.id n] | none => []) := by cases name <;> bal
-  have hie : B (if ie = true then [S "IF EXISTS "] else []) := B_ite (by bal) B_nil
-  have hd : B [S "DROP INDEX "] := B_S _ (by decide)
-  have hon : B [S " ON "] := B_S _ (by decide)
-  have hsch : B (match table with
+theorem e_rIndexDrop (d : Backend) (name : Option String) (table : Option TName) (ie : Bool) : B d (rIndexDrop d name table ie) := by
+  have hname : B d (match name with | some n => [Piece.id n] | none => []) := by cases name <;> bal
+  have hie : B d (if ie = true then [S "IF EXISTS "] else []) := B_ite (by bal) B_nil
+  have hd : B d [S "DROP INDEX "] := B_S _ (by decide)
+  have hon : B d [S " ON "] := B_S _ (by decide)
+  have hsch : B d (match table with
       | none => []
       | some t => if t.alias.isSome = true then [Piece.bad] else
         match t.parts with
@@ -267,9 +255,9 @@ theorem e_rIndexDrop (d : Backend) (name : Option String) (table : Option TName)
   · exact B.app (B.app (B.app hd hie) hsch) hname
   · exact B.app (B.app hd hie) hname
 
-theorem e_rFkActions (f : Fk) : B (rFkActions f) := by
+theorem e_rFkActions (f : Fk) : B d (rFkActions f) := by
   unfold rFkActions
-  have ha : ∀ a, B [S (fkAction a)] := by intro a; unfold fkAction; split <;> bal
+  have ha : ∀ a, B d [S (fkAction a)] := by intro a; unfold fkAction; split <;> bal
   refine B.app ?_ ?_
   · cases f.onDelete with
     | none => exact B_nil
@@ -278,30 +266,30 @@ theorem e_rFkActions (f : Fk) : B (rFkActions f) := by
     | none => exact B_nil
     | some a => exact B.app (B_S " ON UPDATE " (by decide)) (ha a)
 
-theorem e_parenIdents (cs : List String) : B ([S "("] ++ rIdents true cs ++ [S ")"]) := B.paren (b_rIdents cs true)
+theorem e_parenIdents (cs : List String) : B d ([S "("] ++ rIdents true cs ++ [S ")"]) := B.paren (b_rIdents cs true)
 
-theorem e_rFkCreate (d : Backend) (mode : Nat) (f : Fk) : B (rFkCreate d mode f) := by
-  have hact : B (rFkActions f) := e_rFkActions f
-  have hadd : B (if (mode != 0) = true then [S "ADD "] else []) := B_ite (by bal) B_nil
-  have halt1 : B (if (mode == 1) = true then [S "ALTER TABLE "] ++ Ddl.rOptTable 1 f.table ++ [S " "] else []) :=
+theorem e_rFkCreate (d : Backend) (mode : Nat) (f : Fk) : B d (rFkCreate d mode f) := by
+  have hact : B d (rFkActions f) := e_rFkActions f
+  have hadd : B d (if (mode != 0) = true then [S "ADD "] else []) := B_ite (by bal) B_nil
+  have halt1 : B d (if (mode == 1) = true then [S "ALTER TABLE "] ++ Ddl.rOptTable 1 f.table ++ [S " "] else []) :=
     B_ite (B.app (B.app (B_S _ (by decide)) (e_rOptTable 1 f.table)) (B_S _ (by decide))) B_nil
-  have halt3 : B (if (mode == 1) = true then [S "ALTER TABLE "] ++ Ddl.rOptTable 3 f.table ++ [S " "] else []) :=
+  have halt3 : B d (if (mode == 1) = true then [S "ALTER TABLE "] ++ Ddl.rOptTable 3 f.table ++ [S " "] else []) :=
     B_ite (B.app (B.app (B_S _ (by decide)) (e_rOptTable 3 f.table)) (B_S _ (by decide))) B_nil
-  have hname1 : B (match f.name with | some n => [Piece.id n] | none => []) := by cases f.name <;> bal
-  have hname3 : B (match f.name with | some n => [S "CONSTRAINT ", Piece.id n, S " "] | none => []) := by cases f.name <;> bal
-  have hcols : B ([S "("] ++ rIdents true f.cols ++ [S ")"]) := e_parenIdents f.cols
-  have hrefs : B ([S "("] ++ rIdents true f.refCols ++ [S ")"]) := e_parenIdents f.refCols
-  have hfk : B ([S "FOREIGN KEY ("] ++ rIdents true f.cols ++ [S ")"]) :=
+  have hname1 : B d (match f.name with | some n => [Piece.id n] | none => []) := by cases f.name <;> bal
+  have hname3 : B d (match f.name with | some n => [S "CONSTRAINT ", Piece.id n, S " "] | none => []) := by cases f.name <;> bal
+  have hcols : B d ([S "("] ++ rIdents true f.cols ++ [S ")"]) := e_parenIdents f.cols
+  have hrefs : B d ([S "("] ++ rIdents true f.refCols ++ [S ")"]) := e_parenIdents f.refCols
+  have hfk : B d ([S "FOREIGN KEY ("] ++ rIdents true f.cols ++ [S ")"]) :=
     Bk.close (j := 0) (Bk.appB (Bk_S "FOREIGN KEY (" 1 (by decide)) (b_rIdents f.cols true)) (Cl_S ")" (by decide))
-  have hrf : B ([S " ("] ++ rIdents true f.refCols ++ [S ")"]) :=
+  have hrf : B d ([S " ("] ++ rIdents true f.refCols ++ [S ")"]) :=
     Bk.close (j := 0) (Bk.appB (Bk_S " (" 1 (by decide)) (b_rIdents f.refCols true)) (Cl_S ")" (by decide))
-  have hcon : B [S "CONSTRAINT "] := B_S _ (by decide)
-  have hfkw : B [S " FOREIGN KEY "] := B_S _ (by decide)
-  have href : B [S " REFERENCES "] := B_S _ (by decide)
-  have hsp : B [S " "] := B_S _ (by decide)
-  have hbad : B [Piece.bad] := B_bad
-  have hr1 : B (Ddl.rOptTable 1 f.refTable) := e_rOptTable 1 f.refTable
-  have hr3 : B (Ddl.rOptTable 3 f.refTable) := e_rOptTable 3 f.refTable
+  have hcon : B d [S "CONSTRAINT "] := B_S _ (by decide)
+  have hfkw : B d [S " FOREIGN KEY "] := B_S _ (by decide)
+  have href : B d [S " REFERENCES "] := B_S _ (by decide)
+  have hsp : B d [S " "] := B_S _ (by decide)
+  have hbad : B d [Piece.bad] := B_bad
+  have hr1 : B d (Ddl.rOptTable 1 f.refTable) := e_rOptTable 1 f.refTable
+  have hr3 : B d (Ddl.rOptTable 3 f.refTable) := e_rOptTable 3 f.refTable
   cases d <;> simp only [rFkCreate]
   · exact B.app (B.app (B.app (B.app (B.app (B.app (B.app (B.app (B.app (B.app halt1 hadd) hcon) hname1) hfkw) hcols) href) hr1) hsp) hrefs) hact
   · exact B.app (B.app (B.app (B.app (B.app (Bk.close (j := 0) (Bk.appB (B.appk (B.app (B.app halt3 hadd) hname3) (Bk_S "FOREIGN KEY (" 1 (by decide))) (b_rIdents f.cols true)) (Cl_S ")" (by decide)))
@@ -309,55 +297,55 @@ theorem e_rFkCreate (d : Backend) (mode : Nat) (f : Fk) : B (rFkCreate d mode f)
   · refine B_ite hbad ?_
     exact B.app (Bk.close (j := 0) (Bk.appB (B.appk (B.app (B.app hfk href) hr1) (Bk_S " (" 1 (by decide))) (b_rIdents f.refCols true)) (Cl_S ")" (by decide))) hact
 
-theorem e_rFkDrop (d : Backend) (mode : Nat) (name : Option String) (table : Option TName) : B (rFkDrop d mode name table) := by
-  have hname : B (match name with | some n => [Piece.id n] | none => []) := by cases name <;> bal
+theorem e_rFkDrop (d : Backend) (mode : Nat) (name : Option String) (table : Option TName) : B d (rFkDrop d mode name table) := by
+  have hname : B d (match name with | some n => [Piece.id n] | none => []) := by cases name <;> bal
   cases d <;> simp only [rFkDrop]
   · exact B.app (B.app (B_ite (B.app (B.app (B_S _ (by decide)) (e_rOptTable 1 table)) (B_S _ (by decide))) B_nil) (B_S _ (by decide))) hname
   · exact B.app (B.app (B_ite (B.app (B.app (B_S _ (by decide)) (e_rOptTable 3 table)) (B_S _ (by decide))) B_nil) (B_S _ (by decide))) hname
   · exact B_ite B_bad (B.app (B_S _ (by decide)) hname)
 
-theorem e_rFks (d : Backend) : ∀ (l : List Fk) (first : Bool), B (rFks d first l) := by
+theorem e_rFks (d : Backend) : ∀ (l : List Fk) (first : Bool), B d (rFks d first l) := by
   intro l; induction l with
   | nil => intro _; exact B_nil
   | cons c r ih => intro first; simp only [rFks]; exact B.app (B.app (b_sep first ", " (by decide)) (e_rFkCreate d 0 c)) (ih false)
 
-theorem e_rChecks (d : Backend) : ∀ (l : List Ex) (first : Bool), B (rChecks d first l) := by
+theorem e_rChecks (d : Backend) : ∀ (l : List Ex) (first : Bool), B d (rChecks d first l) := by
   intro l; induction l with
   | nil => intro _; exact B_nil
   | cons c r ih => intro first; simp only [rChecks]; exact B.app (B.app (b_sep first ", " (by decide)) (e_rCheck d c)) (ih false)
 
-theorem e_rTableOpts : ∀ (l : List TableOpt), B (rTableOpts l) := by
+theorem e_rTableOpts : ∀ (l : List TableOpt), B d (rTableOpts l) := by
   intro l; induction l with
   | nil => exact B_nil
   | cons o r ih =>
     simp only [rTableOpts]
-    have h1 : B (match o with
+    have h1 : B d (match o with
         | .engine s => [S "ENGINE=", Piece.raw s.toList]
         | .collate s => [S "COLLATE=", .raw s.toList]
         | .charset s => [S "DEFAULT CHARSET=", .raw s.toList]) := by
       cases o <;> exact B.app (B_S _ (by decide)) (B_raw _)
     exact B.app (B.app (B_S " " (by decide)) h1) ih
 
-theorem e_rCreate (d : Backend) (c : Create) : B (rCreate d c) := by
+theorem e_rCreate (d : Backend) (c : Create) : B d (rCreate d c) := by
   unfold rCreate
   simp only []
-  have p1 : Bk 1 ([S "CREATE "] ++ (if c.temporary = true then [S "TEMPORARY "] else []) ++ [S "TABLE "] ++
+  have p1 : Bk d 1 ([S "CREATE "] ++ (if c.temporary = true then [S "TEMPORARY "] else []) ++ [S "TABLE "] ++
       (if c.ifNotExists = true then [S "IF NOT EXISTS "] else []) ++ Ddl.rOptTable 3 c.table ++ [S " ( "]) :=
     B.appk (B.app (B.app (B.app (B.app (B_S _ (by decide)) (B_ite (by bal) B_nil)) (B_S _ (by decide))) (B_ite (by bal) B_nil)) (e_rOptTable 3 c.table))
       (Bk_S " ( " 1 (by decide))
   have p2 := Bk.appB (Bk.appB (Bk.appB (Bk.appB p1 (e_rColumnDefs d c.cols true)) (e_rTableIndexes d c.indexes c.cols.isEmpty)) (e_rFks d c.fks (c.cols.isEmpty && c.indexes.isEmpty))) (e_rChecks d c.checks (c.cols.isEmpty && c.indexes.isEmpty && c.fks.isEmpty))
-  have p3 : B (_ ++ [S " )"]) := Bk.close (j := 0) p2 (Cl_S " )" (by decide))
-  have hcom : B (match c.comment with | some t => if (d == Backend.mysql) = true then [S " COMMENT ", rStrLit t] else [] | none => []) := by
+  have p3 : B d (_ ++ [S " )"]) := Bk.close (j := 0) p2 (Cl_S " )" (by decide))
+  have hcom : B d (match c.comment with | some t => if (d == Backend.mysql) = true then [S " COMMENT ", rStrLit t] else [] | none => []) := by
     cases c.comment with
     | none => exact B_nil
     | some t => exact B_ite (by bal) B_nil
-  have hext : B (match c.extra with | some e => [S " ", Piece.raw e.toList] | none => []) := by
+  have hext : B d (match c.extra with | some e => [S " ", Piece.raw e.toList] | none => []) := by
     cases c.extra with
     | none => exact B_nil
     | some e => exact B.app (B_S _ (by decide)) (B_raw _)
   exact B.app (B.app (B.app p3 hcom) (e_rTableOpts c.options)) hext
 
-theorem e_pgAction (name : String) (s : Spec) : B (pgAction name s) := by
+theorem e_pgAction (name : String) (s : Spec) : B .postgres (pgAction name s) := by
   cases s <;> simp only [pgAction]
   case default e => exact B.app (a := [S "ALTER COLUMN ", .id name, S " SET DEFAULT "]) (by bal) (b_ex _ e)
   case check e => exact B.app (B_S _ (by decide)) (e_rCheck _ e)
@@ -365,12 +353,12 @@ theorem e_pgAction (name : String) (s : Spec) : B (pgAction name s) := by
   case extra t => exact B_raw _
   all_goals bal
 
-theorem e_rPgModifySpecs (name : String) : ∀ (l : List Spec) (first : Bool), B (rPgModifySpecs name first l) := by
+theorem e_rPgModifySpecs (name : String) : ∀ (l : List Spec) (first : Bool), B .postgres (rPgModifySpecs name first l) := by
   intro l; induction l with
   | nil => intro _; exact B_nil
   | cons s r ih => intro first; simp only [rPgModifySpecs]; exact B.app (B.app (B_ite (by bal) B_nil) (e_pgAction name s)) (ih _)
 
-theorem e_rAlterOpt (d : Backend) (o : AlterOpt) : B (rAlterOpt d o) := by
+theorem e_rAlterOpt (d : Backend) (o : AlterOpt) : B d (rAlterOpt d o) := by
   cases o <;> simp only [rAlterOpt]
   case add c ine => exact B.app (B.app (B_S _ (by decide)) (B_ite (by bal) B_nil)) (e_rColumnDef d c)
   case modify c =>
@@ -386,41 +374,41 @@ theorem e_rAlterOpt (d : Backend) (o : AlterOpt) : B (rAlterOpt d o) := by
   case addFk f => exact B_ite B_bad (e_rFkCreate d 2 f)
   case dropFk n => exact B_ite B_bad (e_rFkDrop d 2 _ _)
 
-theorem e_rAlterOpts (d : Backend) : ∀ (l : List AlterOpt) (first : Bool), B (rAlterOpts d first l) := by
+theorem e_rAlterOpts (d : Backend) : ∀ (l : List AlterOpt) (first : Bool), B d (rAlterOpts d first l) := by
   intro l; induction l with
   | nil => intro _; exact B_nil
   | cons c r ih => intro first; simp only [rAlterOpts]; exact B.app (B.app (b_sep first ", " (by decide)) (e_rAlterOpt d c)) (ih false)
 
-theorem e_rAlter (d : Backend) (t : Option TName) (opts : List AlterOpt) : B (rAlter d t opts) := by
+theorem e_rAlter (d : Backend) (t : Option TName) (opts : List AlterOpt) : B d (rAlter d t opts) := by
   unfold rAlter
   refine B_ite B_bad (B_ite B_bad ?_)
-  have h1 : B (match t with | some t => rTable 3 t ++ [S " "] | none => []) := by
+  have h1 : B d (match t with | some t => rTable 3 t ++ [S " "] | none => []) := by
     cases t with
     | none => exact B_nil
     | some t => exact B.app (e_rTable 3 t) (B_S _ (by decide))
   exact B.app (B.app (B_S _ (by decide)) h1) (e_rAlterOpts d opts true)
 
-theorem e_rDropOpts (d : Backend) : ∀ (l : List Nat), B (rDropOpts d l) := by
+theorem e_rDropOpts (d : Backend) : ∀ (l : List Nat), B d (rDropOpts d l) := by
   intro l; induction l with
   | nil => exact B_nil
   | cons o r ih => simp only [rDropOpts]; exact B.app (B_ite B_nil (by split <;> bal)) ih
 
-theorem e_rTables : ∀ (l : List TName) (first : Bool), B (rTables first l) := by
+theorem e_rTables : ∀ (l : List TName) (first : Bool), B d (rTables first l) := by
   intro l; induction l with
   | nil => intro _; exact B_nil
   | cons c r ih => intro first; simp only [rTables]; exact B.app (B.app (b_sep first ", " (by decide)) (e_rTable 3 c)) (ih false)
 
-theorem e_rStrVs : ∀ (l : List String) (first : Bool), B (rStrVs first l) := by
+theorem e_rStrVs : ∀ (l : List String) (first : Bool), B d (rStrVs first l) := by
   intro l; induction l with
   | nil => intro _; exact B_nil
   | cons v r ih => intro first; simp only [rStrVs]; exact B.app (B.app (b_sep first ", " (by decide)) (by bal)) (ih false)
 
-theorem e_rTypeRefs : ∀ (l : List (List String)) (first : Bool), B (rTypeRefs first l) := by
+theorem e_rTypeRefs : ∀ (l : List (List String)) (first : Bool), B d (rTypeRefs first l) := by
   intro l; induction l with
   | nil => intro _; exact B_nil
   | cons c r ih => intro first; simp only [rTypeRefs]; exact B.app (B.app (b_sep first ", " (by decide)) (b_rParts c true)) (ih false)
 
-theorem e_rTypeAlterOpt (o : TypeAlterOpt) : B (rTypeAlterOpt o) := by
+theorem e_rTypeAlterOpt (o : TypeAlterOpt) : B d (rTypeAlterOpt o) := by
   cases o with
   | add v pl ine =>
     simp only [rTypeAlterOpt]
@@ -432,7 +420,7 @@ theorem e_rTypeAlterOpt (o : TypeAlterOpt) : B (rTypeAlterOpt o) := by
   | renameValue a b => simp only [rTypeAlterOpt]; bal
 
 /-- **every schema statement is written with balanced parentheses** -/
-theorem e_rStmt (d : Backend) (s : Ddl.Stmt) : B (rStmt d s) := by
+theorem e_rStmt (d : Backend) (s : Ddl.Stmt) : B d (rStmt d s) := by
   cases s <;> simp only [rStmt]
   case create c => exact e_rCreate d c
   case alter t opts => exact e_rAlter d t opts
@@ -445,34 +433,34 @@ theorem e_rStmt (d : Backend) (s : Ddl.Stmt) : B (rStmt d s) := by
   case fkCreate f => exact e_rFkCreate d 1 f
   case fkDrop n t => exact e_rFkDrop d 1 n t
   case typeCreate name asEnum values =>
-    have hn : B (match (generalizing := false) name with | some n => rParts true n | none => []) := by
+    have hn : B d (match (generalizing := false) name with | some n => rParts true n | none => []) := by
       cases name with
       | none => exact B_nil
       | some n => exact b_rParts n true
     exact B.app (B.app (B.app (B_S _ (by decide)) hn) (B_ite (by bal) B_nil))
       (B_ite B_nil (Bk.close (j := 0) (Bk.appB (Bk_S " (" 1 (by decide)) (e_rStrVs values true)) (Cl_S ")" (by decide))))
   case typeDrop names ie opt =>
-    have h3 : B (match (generalizing := false) opt with | some o => [S " ", S (if (o == 0) = true then "CASCADE" else "RESTRICT")] | none => []) := by
+    have h3 : B d (match (generalizing := false) opt with | some o => [S " ", S (if (o == 0) = true then "CASCADE" else "RESTRICT")] | none => []) := by
       cases opt with
       | none => exact B_nil
       | some o => exact B.app (B_S _ (by decide)) (by split <;> bal)
     exact B.app (B.app (B.app (B_S _ (by decide)) (B_ite (by bal) B_nil)) (e_rTypeRefs names true)) h3
   case typeAlter name opt =>
-    have hn : B (match (generalizing := false) name with | some n => rParts true n | none => []) := by
+    have hn : B d (match (generalizing := false) name with | some n => rParts true n | none => []) := by
       cases name with
       | none => exact B_nil
       | some n => exact b_rParts n true
-    have ho : B (match (generalizing := false) opt with | some o => rTypeAlterOpt o | none => []) := by
+    have ho : B d (match (generalizing := false) opt with | some o => rTypeAlterOpt o | none => []) := by
       cases opt with
       | none => exact B_nil
       | some o => exact e_rTypeAlterOpt o
     exact B.app (B.app (B_S _ (by decide)) hn) ho
   case extCreate name schema version cascade ine =>
-    have h1 : B (match (generalizing := false) schema with | some x => [S " WITH SCHEMA ", Piece.raw x.toList] | none => []) := by
+    have h1 : B d (match (generalizing := false) schema with | some x => [S " WITH SCHEMA ", Piece.raw x.toList] | none => []) := by
       cases schema with
       | none => exact B_nil
       | some x => exact B.app (B_S _ (by decide)) (B_raw _)
-    have h2 : B (match (generalizing := false) version with | some x => [S " VERSION ", Piece.raw x.toList] | none => []) := by
+    have h2 : B d (match (generalizing := false) version with | some x => [S " VERSION ", Piece.raw x.toList] | none => []) := by
       cases version with
       | none => exact B_nil
       | some x => exact B.app (B_S _ (by decide)) (B_raw _)
@@ -480,4 +468,4 @@ theorem e_rStmt (d : Backend) (s : Ddl.Stmt) : B (rStmt d s) := by
   case extDrop name ie cascade restrict =>
     exact B.app (B.app (B.app (B.app (B_S _ (by decide)) (B_ite (by bal) B_nil)) (B_raw _)) (B_ite (by bal) B_nil)) (B_ite (by bal) B_nil)
 
-end SeaQ.Balance
+end SeaQ.Plain
